@@ -20,6 +20,8 @@ from pyvc.interp import Obj, exc_matches
 from pyvc.lib.numpy_ import unravel
 from pyvc.lib.stdlib import OpaqueValue
 
+from props._contracts import polygon_contract_scenarios, scn_polygon_contract  # noqa: F401
+
 PROPERTY = 'C04'
 CONVS = [('CFGrid1D', {}), ('CFGrid2D', {}), ('ShocSimple', {}), ('ShocStandard', {}), ('UGrid', {'edges': 'none'}), ('UGrid', {'edges': 'both'})]
 
@@ -29,6 +31,7 @@ def scenarios(tier):
     for ci, (conv, kw) in enumerate(CONVS):
         out.append({'name': f'get_index_for_point[{conv} {kw}]', 'fn': 'scn_lookup', 'kwargs': {'ci': ci}})
         out.append({'name': f'select_point[{conv} {kw}]', 'fn': 'scn_select_point', 'kwargs': {'ci': ci}})
+    out += polygon_contract_scenarios()
     return out
 
 
